@@ -8,20 +8,26 @@ LEAN_TARGETS = ['NdnProofs.Props.C11']
 THEOREMS = [
     'Ndn.C11.matchIter_eq_matchTree', 'Ndn.C11.matchIter_no_exception', 'Ndn.C11.matchTree_sound', 'Ndn.C11.matchIter_sound',
     'Ndn.C11.matchTree_iff_Sem', 'Ndn.C11.compile_correct_partial', 'Ndn.C11.compiled_match_iff', 'Ndn.C11.compiled_vdet',
+    'Ndn.C11.tree_eq_chains', 'Ndn.C11.checker_reports_iff_chain', 'Ndn.C11.merge_key_test_sound', 'Ndn.C11.compile_split',
     'Ndn.C11.matchNames_spec',
 ]
 PARTIAL = {
     'Ndn.C11.compile_correct_partial':
-        'compile_correct (source semantics of lvs.rst = semantics of the compiled tree) is NOT proved. The compiler passes ARE '
-        'modelled in Lean (NdnModel/Lvs/{Ast,Compile}.lean: rule sorting with top_order, pattern numbering, DNF replication / '
+        'compile_correct (source semantics of lvs.rst = semantics of the compiled tree) is proved only in part. The compiler passes '
+        'ARE modelled in Lean (NdnModel/Lvs/{Ast,Compile}.lean: rule sorting with top_order, pattern numbering, DNF replication / '
         'reference inlining with fresh temporaries, node merging by pattern_movement keys, signer resolution) and the model is tied '
         'to compile_lvs on every run by differential execution (schema AST -> Lean compiler -> node pool compared with the real '
         'compiler\'s pool: exactly, or in a canonical form if they differ only in the numbering of nodes/tags). Proved about the '
-        'compiler model: its output on every AST the parser can produce is Sane and VDet, so the checker theorems apply to it without '
-        'further hypotheses (compiled_match_iff). Proved for every model that passes the loader: the iterative checker reports '
-        '(node, bindings) iff the name matches that node in the path semantics of the compiled tree. Still resting on the '
-        'correspondence run and on the source-level oracle (an independent Python transcription of lvs.rst): the three semantic '
-        'layers numbering / replication / node merging preserve the source semantics.',
+        'compiler model: (1) its output on every AST the parser can produce is Sane and VDet, so the checker theorems apply to it '
+        'without further hypotheses (compiled_match_iff); (2) the node-merging layer (tree_eq_chains, checker_reports_iff_chain): '
+        'the compiled tree reports rule r with bindings s for a name iff one of the replicated chains of r accepts the name on its own '
+        'with bindings s (ChainRun) - under the hypothesis KeyInj that pattern_movement\'s merge key determines tag and constraints, '
+        'which follows from a computable test (merge_key_test_sound) that the Lean driver evaluates on every generated schema and the '
+        'harness requires to hold. Proved for every model that passes the loader: the iterative checker reports (node, bindings) iff '
+        'the name matches that node in the path semantics of the compiled tree. Still resting on the correspondence run and on the '
+        'source-level oracle (an independent Python transcription of lvs.rst): the two earlier layers - pattern numbering preserves '
+        'the source semantics; rule replication = union over DNF alternatives and inlined references with fresh temporaries per '
+        'occurrence (chains = rules as written) - and KeyInj as a general fact about the key encoding.',
 }
 TRUSTED = [
     'C11: the theorems are at the compiled-model level; source text -> model is covered by the oracle (a Python transcription of '
@@ -148,13 +154,15 @@ def model_obs(answer, case, impl):
     parts = answer.split(' ')
     if parts[0] == 'cerr':
         return {'compile': parts[1]}
-    assert parts[0] == 'ok' and len(parts) >= 4, answer[:100]
+    assert parts[0] == 'ok' and len(parts) >= 5, answer[:100]
+    key_injective = parts[3] == '1'     # the hypothesis KeyInj of the node-merging theorem, evaluated by the model
+    parts = parts[:3] + parts[4:]
     # identical node pools: everything is compared exactly (incl. the order of the matches); pools that are
     # equal only up to the numbering of nodes / tags: canonical forms and sorted match lists
     exact = parts[1] == impl['ctoken'] and parts[2] == impl['symbols']
     impl['_exact'] = exact
     obs = {'compile': 'ok', 'node_pool': parts[1] if exact else L.canon_pool(parts[1], parts[2]),
-           'symbols': parts[2] if exact else ','.join(sorted(parts[2].split(',')))}
+           'symbols': parts[2] if exact else ','.join(sorted(parts[2].split(','))), 'merge_key_injective': key_injective}
     if parts[3] != 'accepted':
         obs['build'] = parts[3]
         return obs
@@ -175,7 +183,8 @@ def impl_obs(impl):
         return {'compile': impl['compile']}
     exact = impl.get('_exact', True)
     obs = {'compile': 'ok', 'node_pool': impl['ctoken'] if exact else L.canon_pool(impl['ctoken'], impl['symbols']),
-           'symbols': impl['symbols'] if exact else ','.join(sorted(impl['symbols'].split(','))), 'build': impl['build']}
+           'symbols': impl['symbols'] if exact else ','.join(sorted(impl['symbols'].split(','))), 'build': impl['build'],
+           'merge_key_injective': True}        # expected of every schema: else two different constraint sets were merged
     if impl['build'] == 'ok':
         obs['matches'] = impl['matches'] if exact else L.canon_matches(impl['matches'], impl['symbols'])
     return obs
@@ -241,12 +250,14 @@ LEVEL_TEXT = ('Lean 4 theorems over a hand-written model of Checker._match/match
               'search (explicit stacks) yields exactly the list computed by structural recursion on the name, which is sound and '
               'complete w.r.t. a path semantics of the compiled tree (value edge equal; pattern edge: unbound tag binds, bound tag must '
               'repeat, every CNF constraint has an option holding under the bindings so far). The compiler is modelled too (the passes of '
-              'compiler.py as written, AST -> node pool) and proved to emit only Sane, VDet models, so these theorems apply to compiler '
-              'output unconditionally; source text = compiled tree is tied on every run by differential execution (schema AST -> Lean '
-              'compiler vs real compile_lvs: node pools compared; Lean loader + matcher on the Lean-compiled pool vs real Checker) and by '
-              'a source-level oracle transcribed from docs/src/lvs/lvs.rst.')
-LEVEL_NOTE = ('compile_correct is not proved (named compile_correct_partial): the compiler is modelled and tied by differential execution, '
-              'its output is proved well-formed, but that numbering / replication / node merging preserve the source semantics is not '
-              'proved. Proof is about the model; model=code is sampled.')
-TECHNIQUE = 'Lean 4 proof (simulation of the iterative search; soundness/completeness w.r.t. a path semantics) + model/implementation correspondence check + source-level oracle'
+              'compiler.py as written, AST -> node pool): it is proved to emit only Sane, VDet models, so these theorems apply to compiler '
+              'output unconditionally, and its node-merging pass is proved to preserve the accepted (rule, name, bindings) triples of the '
+              'replicated rule chains (given an injective merge key, which the driver tests on every schema). Source text = chains '
+              '(numbering, replication) is tied on every run by differential execution (schema AST -> Lean compiler vs real compile_lvs: '
+              'node pools compared; Lean loader + matcher on the Lean-compiled pool vs real Checker) and by a source-level oracle '
+              'transcribed from docs/src/lvs/lvs.rst.')
+LEVEL_NOTE = ('compile_correct is proved in part (named compile_correct_partial): compiler modelled and tied by differential execution, '
+              'output well-formed, node merging correct w.r.t. the chains; that numbering and replication preserve the source semantics '
+              'is not proved. Proof is about the model; model=code is sampled.')
+TECHNIQUE = 'Lean 4 proof (simulation of the iterative search; soundness/completeness w.r.t. a path semantics; invariants of the compiler passes; node merging = union of chains by induction on the generated tree) + model/implementation correspondence check (compiler, loader, matcher) + source-level oracle'
 DESIGN_REF = 'DESIGN.md section 7, C11; finding F8'
